@@ -861,3 +861,167 @@ func (q *Query) Describe() string {
 	}, 0)
 	return strings.Join(parts, " ")
 }
+
+// ---------------------------------------------------------------------------------------------
+// Directed family: a nested DISTINCT whose columns are only partly used above it. An optimizer
+// that prunes an unused column from under the DISTINCT merges rows that differ only in that
+// column and changes the row count above.
+
+// DupHeavyTable builds a table of 2..4 columns in which a strict, non-empty subset of the
+// columns (kept) takes only 1..3 distinct value tuples, while the remaining columns take 2..4
+// distinct tuples per kept tuple, every combination repeated 1..3 times: many rows agree on the
+// kept columns and differ only in the others.
+func (g *Gen) DupHeavyTable(kind string) (*Table, []int) {
+	var t *Table
+	for try := 0; try < 50; try++ {
+		t = g.Table(kind)
+		if len(t.Cols) >= 2 && len(t.Rows) > 0 {
+			break
+		}
+	}
+	if len(t.Cols) < 2 || len(t.Rows) == 0 {
+		g.tableN++
+		t = &Table{Name: "t" + strconv.Itoa(g.tableN), Cols: []Column{{Name: "i0", T: TInt}, {Name: "i1", T: TInt}}}
+		t.File = t.Name + ".csv"
+	}
+	n := len(t.Cols)
+	perm := g.R.Perm(n)
+	k := 1 + g.R.Intn(n-1)
+	isKept := make([]bool, n)
+	for _, c := range perm[:k] {
+		isKept[c] = true
+	}
+	var kept []int
+	for c := 0; c < n; c++ {
+		if isKept[c] {
+			kept = append(kept, c)
+		}
+	}
+	val := func(c int, nullOK bool) Value {
+		if nullOK && g.chance(0.2) {
+			return Null()
+		}
+		return g.poolValue(t.Cols[c].T.K)
+	}
+	t.Rows = nil
+	nP := 1 + g.R.Intn(3)
+	for p := 0; p < nP; p++ {
+		base := make(Row, n)
+		for c := 0; c < n; c++ {
+			base[c] = val(c, p > 0)
+		}
+		nD := 2 + g.R.Intn(3)
+		for d := 0; d < nD; d++ {
+			row := append(Row{}, base...)
+			for c := 0; c < n; c++ {
+				if !isKept[c] {
+					row[c] = val(c, d > 0)
+				}
+			}
+			for r := 1 + g.R.Intn(3); r > 0; r-- {
+				t.Rows = append(t.Rows, row)
+			}
+		}
+	}
+	g.R.Shuffle(len(t.Rows), func(i, j int) { t.Rows[i], t.Rows[j] = t.Rows[j], t.Rows[i] })
+	return t, kept
+}
+
+// NestedDistinctPlacements and NestedDistinctOuters enumerate the directed family.
+var NestedDistinctPlacements = []string{"from-subquery", "with", "two-levels-pass-through", "two-levels-middle-drops", "with-over-subquery"}
+var NestedDistinctOuters = []string{"plain", "where", "order-by", "distinct", "aggregate"}
+
+// NestedDistinctQuery builds: inner = SELECT DISTINCT <all columns, or *> FROM t, placed in a
+// FROM subquery, a WITH, or one level deeper; above it only the kept columns are referenced
+// (plain projection, WHERE, ORDER BY, DISTINCT or GROUP BY/aggregates over them).
+func (g *Gen) NestedDistinctQuery(t *Table, kept []int, placement, outer string, star bool) *Query {
+	inner := &Query{From: Source{Kind: SrcTable, Table: t}, Distinct: true, Limit: -1}
+	if g.chance(0.3) {
+		inner.From.Alias = "t"
+	}
+	if star {
+		inner.Star = true
+	} else {
+		for i, c := range t.Cols {
+			inner.Items = append(inner.Items, SelItem{Expr: Col(i, c.Name, c.T), Alias: g.alias()})
+		}
+	}
+	// passThrough selects the given columns (by position) of src
+	passThrough := func(src Source, s Scope, cols []int) *Query {
+		q := &Query{From: src, Limit: -1}
+		for _, c := range cols {
+			q.Items = append(q.Items, SelItem{Expr: g.colRef(s[c]), Alias: g.alias()})
+		}
+		return q
+	}
+	all := make([]int, len(t.Cols))
+	for i := range all {
+		all[i] = i
+	}
+	var src Source
+	var s Scope
+	var with []CTE
+	keptHere := kept // positions of the kept columns in the scope the outer query sees
+	switch placement {
+	case "from-subquery":
+		src, s = g.subSource(inner)
+	case "with":
+		name := g.cteName()
+		with = []CTE{{Name: name, Q: inner}}
+		src, s = Source{Kind: SrcCTE, CTE: name}, scopeOf(inner.OutCols(nil), "")
+	case "two-levels-pass-through":
+		isrc, is := g.subSource(inner)
+		mid := passThrough(isrc, is, all)
+		src, s = g.subSource(mid)
+	case "two-levels-middle-drops":
+		isrc, is := g.subSource(inner)
+		mid := passThrough(isrc, is, kept)
+		src, s = g.subSource(mid)
+		keptHere = make([]int, len(kept))
+		for i := range kept {
+			keptHere[i] = i
+		}
+	default: // with-over-subquery: WITH c AS (SELECT all FROM (inner) s) ...
+		isrc, is := g.subSource(inner)
+		mid := passThrough(isrc, is, all)
+		name := g.cteName()
+		with = []CTE{{Name: name, Q: mid}}
+		src, s = Source{Kind: SrcCTE, CTE: name}, scopeOf(mid.OutCols(nil), "")
+	}
+	var ks Scope
+	for _, c := range keptHere {
+		ks = append(ks, s[c])
+	}
+	q := &Query{With: with, From: src, Limit: -1}
+	if outer == "aggregate" {
+		key := g.colRef(ks[0])
+		q.Grouping = true
+		q.GroupBy = []*Expr{key}
+		q.Items = []SelItem{{Expr: key, Alias: g.alias()}, {Agg: &Agg{Fn: "count", Star: true}, Alias: g.alias()},
+			{Agg: &Agg{Fn: "count", Arg: g.colRef(ks[len(ks)-1])}, Alias: g.alias()}}
+		if g.chance(0.5) {
+			q.GroupBy = nil
+			q.Items = q.Items[1:]
+		}
+		return q
+	}
+	for _, c := range ks {
+		q.Items = append(q.Items, SelItem{Expr: g.colRef(c), Alias: g.alias()})
+	}
+	switch outer {
+	case "where":
+		if ks.nullOnly() {
+			q.Where = Un(OpIsNull, TBool, g.colRef(ks[0]))
+		} else {
+			// a predicate over the kept columns that is not constantly false: OR with IS [NOT] NULL
+			q.Where = Bin(OpOr, TBool, g.Expr(ks, KBool, 1+g.R.Intn(2)), Un(OpIsNotNull, TBool, g.colRef(ks[0])))
+		}
+	case "order-by":
+		for i := range q.Items {
+			q.OrderBy = append(q.OrderBy, OrderKey{Col: i, Desc: g.chance(0.4)})
+		}
+	case "distinct":
+		q.Distinct = true
+	}
+	return q
+}
